@@ -32,7 +32,9 @@ def o_quiescent_complete(w):
     out = []
     for op in w.ops.values():
         n = w.ghost.get('nrun%d' % op['opid'], ZERO)
-        if op['kind'] in ('desync', 'sync', 'future_desync', 'after'):
+        if op['kind'] in ('future_desync', 'after'):
+            out.append(('stranded-future-op:op%d(%s by %s)' % (op['opid'], op['kind'], op['thread']), And(w.quiescent, Or(Ne(n, ONE), Eq(w.ghost.get('end%d' % op['opid'], NONE_T), NONE_T)))))
+        elif op['kind'] in ('desync', 'sync'):
             out.append(('stranded:op%d(%s by %s)' % (op['opid'], op['kind'], op['thread']), And(w.quiescent, Ne(n, ONE))))
         elif op['kind'] == 'try_sync':
             res = w.ghost.get('res%d' % op['opid'])
@@ -103,6 +105,56 @@ def o_final_try_sync(w):
             if isinstance(res, En): out.append(('probe-try_sync-busy:op%d' % op['opid'], And(Ne(w.ghost.get('ret%d' % op['opid'], NONE_T), NONE_T), Ne(res.disc, ZERO))))
     return out
 
+def o_fut_results(w):
+    """a future returned by future_desync/future_sync resolves once, to Ok(value of its own operation), not before the operation finished"""
+    out = []
+    for op in w.ops.values():
+        if op['kind'] not in ('future_desync', 'future_sync'): continue
+        k = op['opid']
+        fret = w.ghost.get('fret%d' % k, NONE_T); res = w.ghost.get('fres%d' % k); resolved = Ne(fret, NONE_T)
+        end = w.ghost.get('end%d' % k, NONE_T); n = w.ghost.get('nrun%d' % k, ZERO)
+        nready = w.ghost.get('nready%d' % k, ZERO)
+        out.append(('future-resolved-twice:op%d' % k, Ugt(nready, ONE)))
+        out.append(('future-resolved-before-op-finished:op%d' % k, And(resolved, Or(Eq(end, NONE_T), Ult(fret, end), Ne(n, ONE)))))
+        if isinstance(res, En):
+            out.append(('future-not-ok:op%d' % k, And(resolved, Ne(res.disc, ZERO))))
+            pay = res.vars.get(0)
+            val = pay.f.get(0) if pay is not None else None
+            if isinstance(val, E) and val.sort == 'V': out.append(('future-wrong-value:op%d' % k, And(resolved, Eq(res.disc, ZERO), Ne(val, BV(op['tok'])))))
+    return out
+
+def o_suspend(w):
+    """once suspend() resolved, everything scheduled before it has completed and nothing scheduled after it starts until resumed"""
+    out = []
+    for sop in w.ops.values():
+        if sop['kind'] != 'suspend': continue
+        k = sop['opid']
+        fret = w.ghost.get('fret%d' % k, NONE_T); resumed = w.ghost.get('resumed%d' % k, NONE_T)
+        for o in w.ops.values():
+            if o['obj'] != sop['obj'] or o is sop or o['kind'] == 'suspend': continue
+            ko = o['opid']
+            start = w.ghost.get('start%d' % ko, NONE_T); end = w.ghost.get('end%d' % ko, NONE_T)
+            before = o['tindex'] == sop['tindex'] and o['idx'] < sop['idx']
+            after = o['tindex'] == sop['tindex'] and o['idx'] > sop['idx']
+            if before:
+                out.append(('suspend-resolved-before-earlier-op-finished:op%d' % ko, And(Ne(fret, NONE_T), Or(Eq(end, NONE_T), Ult(fret, end)))))
+            if after:
+                out.append(('op-ran-while-suspended:op%d' % ko, And(Ne(fret, NONE_T), Ne(start, NONE_T), Or(Eq(resumed, NONE_T), Ult(start, resumed)), Uge(start, fret))))
+                out.append(('op-overtook-suspend:op%d' % ko, And(Ne(start, NONE_T), Ne(fret, NONE_T), Ult(start, fret))))
+    return out
+
+def o_cancelled_clean(w):
+    """a dropped future_sync never leaves its operation half-visible: either the closure never ran, or its future was destroyed"""
+    out = []
+    for op in w.ops.values():
+        if op['kind'] != 'future_sync': continue
+        k = op['opid']
+        dropped = w.ghost.get('fdropped%d' % k, NONE_T)
+        n = w.ghost.get('nrun%d' % k, ZERO); end = w.ghost.get('end%d' % k, NONE_T)
+        out.append(('dropped-future_sync-op-still-open:op%d' % k, And(Ne(dropped, NONE_T), Ugt(n, ZERO), Eq(end, NONE_T))))
+        out.append(('future_sync-ran-after-drop:op%d' % k, And(Ne(dropped, NONE_T), Ne(w.ghost.get('start%d' % k, NONE_T), NONE_T), Ult(dropped, w.ghost.get('start%d' % k, NONE_T)))))
+    return out
+
 def o_independent(w):
     """with the gates never opened, whenever no thread can move every un-gated operation has completed"""
     out = []
@@ -112,5 +164,5 @@ def o_independent(w):
         out.append(('blocked-by-other-object:op%d' % op['opid'], And(w.norun, Ne(n, ONE))))
     return out
 
-ORACLES = {'independent': o_independent, 'overlap': o_overlap, 'ran_twice': o_ran_twice, 'pool_max': o_pool_max, 'deadlock': o_deadlock, 'panic': o_panic,
+ORACLES = {'independent': o_independent, 'fut_results': o_fut_results, 'suspend': o_suspend, 'cancelled_clean': o_cancelled_clean, 'overlap': o_overlap, 'ran_twice': o_ran_twice, 'pool_max': o_pool_max, 'deadlock': o_deadlock, 'panic': o_panic,
            'quiescent_complete': o_quiescent_complete, 'results': o_results, 'order': o_order, 'final_try_sync': o_final_try_sync}
